@@ -45,3 +45,30 @@ MANIFEST = {
     "note": "Three divergences found on the pinned code, all repaired in /repo by fix ca4b136 (core replacer.rs forwards get_replaced_range through &T; lsp utils.rs/lib.rs use the fixer's range and order same-start matches outermost first). The theorems are about a faithful but shallow model of plumbing; the assurance comes mostly from the end-to-end comparison. Trusted: Lean kernel + 3 axioms, harness LSP client / parsers, driver, check.py.",
     "technique": "Lean 4 proof over hand-written executable model (two code variants, counter-examples by evaluation) + differential correspondence and pairwise property oracle through the real CLI, the library API and an in-process language server",
 }
+
+
+# slice lsp_requests: the request layer of the language server (code actions, fix-all, executeCommand) over sessions
+ENTRY["lean_modules"] += ["AstGrepVerif.Props.LspRequests"]
+ENTRY["theorems"] += [
+    "AGV.LspRequests.quickfix_of_diagnostic",
+    "AGV.LspRequests.quickfix_fresh",
+    "AGV.LspRequests.quickfix_stale_counterexample",
+    "AGV.LspRequests.fixall_eq_execute",
+    "AGV.LspRequests.fixall_ordered_disjoint",
+    "AGV.LspRequests.selectsFixAll_iff",
+    "AGV.LspRequests.only_fixall_complete",
+    "AGV.LspRequests.only_fixall_response",
+    "AGV.LspRequests.only_fixall_complete_holds",
+    "AGV.LspRequests.only_sound_partial",
+    "AGV.LspRequests.only_unrequested_counterexample",
+    "AGV.LspRequests.routing_eq_pinned",
+    "AGV.LspRequests.only_fixall_complete_pinned_partial",
+    "AGV.LspRequests.only_unrequested_pinned_counterexample",
+    "AGV.LspRequests.only_fixall_hierarchy_counterexample",
+    "AGV.LspRequests.only_source_counterexample",
+]
+ENTRY["units"] += ["lsp_requests"]
+ENTRY["trusted_base"] += [
+    "slice lsp_requests: modelled, not verified: on_code_action, quickfix_code_action, diagnostic_to_code_action, RewriteData::from_value / replaced_range, fix_all_code_action, compute_all_fixes, on_execute_command, on_apply_all_fix(_impl), report_error; the analysis of a text (the model's parameter `analyse`) is the real get_diagnostics taken from a second in-process server instance with the same rules; the harness' JSON-RPC client (framing, barrier by workspace/didChangeConfiguration, answering workspace/workspaceFolders and workspace/applyEdit), the classification of an executeCommand outcome by its log line, and the driver's decoding of wire diagnostics (source / code / data as serde reads them) are trusted glue",
+    "slice lsp_requests: rule sets are built so that no two RULES match the same node (the order of the published diagnostics of different rules comes from a HashMap); `range` of a codeAction request is always (0,0)-(0,0) (the server never reads it)",
+]
